@@ -63,9 +63,9 @@ def n_of_date(dt):
 SETKINDS = ("bank", "cc", "inv", "other")
 
 
-def make_profile(n, sets, tag=""):
+def make_profile(n, sets, tag="", pad=0):
     """complete PROFRS document: DTPROFUP = date_of(n); sets = [(kind, url, closingavail)], kind in SETKINDS.
-    `tag` makes two profiles of the same date differ (and varies the length)."""
+    `tag` makes two profiles of the same date differ; `pad` (0..23) lengthens the document by that many bytes."""
     L = lib(); M = L.M
     core = lambda url: M.MSGSETCORE("ENG", ver=1, url=url, ofxsec="NONE", transpsec=True, signonrealm="R",
                                     syncmode="LITE", respfileer=True)
@@ -88,7 +88,7 @@ def make_profile(n, sets, tag=""):
     si = M.SIGNONINFOLIST(M.SIGNONINFO(signonrealm="R", min=1, max=32, chartype="ALPHAORNUMERIC", casesen=True,
                                         special=True, spaces=False, pinch=False, chgpinfirst=False))
     dt = date_of(n)
-    profrs = M.PROFRS(msgsetlist=msl, signoninfolist=si, dtprofup=dt, finame="FI" + tag[:30], addr1="1 Main St", city="c",
+    profrs = M.PROFRS(msgsetlist=msl, signoninfolist=si, dtprofup=dt, finame="FI" + tag[:30], addr1="1 Main St" + "x" * pad, city="c",
                       state="NY", postalcode="1", country="USA")
     trn = M.PROFTRNRS(trnuid="1", status=M.STATUS(code=0, severity="INFO"), profrs=profrs)
     return _wrap(trn, dt)
@@ -301,3 +301,240 @@ def pmap(fn, cases, tag, chunk=8, workers=None):
     with ProcessPoolExecutor(workers, mp_context=mp.get_context("fork")) as ex:
         res = list(ex.map(_pmap_worker, [(fn, tag, ch) for ch in chunks]))
     return [x for r in res for x in r]
+
+
+# ------------------------------------------------------------------ C15: steppable file system + scheduler
+class Sched:
+    """explicit schedule for calls running in real threads: exactly one runs at a time, from one gate to the next."""
+    def __init__(self, tids):
+        self.cv = threading.Condition()
+        self.at_gate = {t: False for t in tids}
+        self.finished = {t: False for t in tids}
+        self.turn = None
+
+    def gate(self, tid):
+        with self.cv:
+            self.at_gate[tid] = True
+            self.cv.notify_all()
+            if not self.cv.wait_for(lambda: self.turn == tid, timeout=60):
+                raise RuntimeError("scheduler: call %d was never granted its step" % tid)
+            self.turn = None
+            self.at_gate[tid] = False
+
+    def finish(self, tid):
+        with self.cv:
+            self.finished[tid] = True
+            self.cv.notify_all()
+
+    def grant(self, tid):
+        """let call `tid` perform its next step; False if it has already returned."""
+        with self.cv:
+            if not self.cv.wait_for(lambda: self.at_gate[tid] or self.finished[tid], timeout=60):
+                raise RuntimeError("scheduler: call %d neither reached a step nor returned" % tid)
+            if self.finished[tid]:
+                return False
+            self.turn = tid
+            self.cv.notify_all()
+            if not self.cv.wait_for(lambda: self.turn is None and (self.at_gate[tid] or self.finished[tid]), timeout=60):
+                raise RuntimeError("scheduler: call %d did not come back from its step" % tid)
+            return True
+
+
+class WFile:
+    """re-enactment of a buffered binary writer whose buffer really is lost on a kill: write() only buffers,
+    flush()/close() hand the buffer to os.write.  (Python's BufferedWriter writes through above 8 KiB; the harness's
+    documents are ~3 KiB, so 'buffered until flush/close' is what the real object does with them too.)"""
+    def __init__(self, world, fd, path):
+        self.world, self.fd, self.path, self.buf, self.closed = world, fd, path, b"", False
+        world.open_fds.add(fd)
+
+    def write(self, data):
+        self.world.step("write", self.path)
+        self.buf += bytes(data)
+        self.world.snap()
+        return len(data)
+
+    def _drain(self):
+        while self.buf:
+            n = os.write(self.fd, self.buf)
+            self.buf = self.buf[n:]
+
+    def flush(self):
+        self.world.step("flush", self.path)
+        self._drain()
+        self.world.snap()
+
+    def fileno(self):
+        return self.fd
+
+    def close(self):
+        if self.closed:
+            return
+        self.world.step("close", self.path)
+        self._drain()
+        os.close(self.fd)
+        self.world.open_fds.discard(self.fd)
+        self.closed = True
+        self.world.snap()
+
+    def __enter__(self):
+        return self
+
+    def __exit__(self, *a):
+        self.close()
+        return False
+
+
+class FsWorld:
+    """While installed, every file-system call that touches `root` (the fiprofiles directory) is one logged step:
+    exists / openread / opentrunc / write / flush / close / mkstemp / fsync / replace / unlink, plus the network exchange
+    ('net', announced by the fake server).  A call can be killed before any step (nothing it buffered reaches the disk,
+    none of its cleanup code has an effect) and several calls can be stepped under an explicit schedule."""
+    def __init__(self, root):
+        self.root = os.path.realpath(root)
+        self.lock = threading.Lock()
+        self.tid_of = {}          # thread ident -> call number
+        self.dead = set()
+        self.kill_at = {}         # call number -> index of the step it does not live to perform
+        self.nsteps = {}
+        self.sched = None
+        self.log = []             # [call, "step name" | "kill", snapshot of the directory after it]
+        self.open_fds = set()
+        self.tmp_fd = {}          # fd from mkstemp -> path
+        self.tmp_owner = {}       # temporary path -> call number
+
+    # -- bookkeeping
+    def register(self, tid):
+        self.tid_of[threading.get_ident()] = tid
+        self.nsteps.setdefault(tid, 0)
+
+    def mine(self, path):
+        try:
+            p = os.path.realpath(os.fspath(path))
+        except TypeError:
+            return False
+        return p == self.root or p.startswith(self.root + os.sep)
+
+    def snapshot(self):
+        out = {}
+        if os.path.isdir(self.root):
+            for n in sorted(os.listdir(self.root)):
+                p = os.path.join(self.root, n)
+                if os.path.isfile(p):
+                    with self._orig_open(p, "rb") as f:
+                        out[n] = f.read()
+        return out
+
+    def step(self, name, path=None):
+        tid = self.tid_of.get(threading.get_ident())
+        if tid is None:
+            raise RuntimeError("file-system step %s from a thread the harness does not know" % name)
+        if tid in self.dead:
+            raise HarnessKill()
+        if self.sched is not None:
+            self.sched.gate(tid)
+        if self.kill_at.get(tid) == self.nsteps[tid]:
+            self.dead.add(tid)
+            self.log.append([tid, "kill", self.snapshot()])
+            raise HarnessKill()
+        self.nsteps[tid] += 1
+        self.log.append([tid, name, None])
+
+    def snap(self):
+        self.log[-1][2] = self.snapshot()
+
+    # -- the patched entry points
+    def __enter__(self):
+        import pathlib, tempfile, io
+        w = self
+        self._saved = (builtins.open, io.open, pathlib.Path.exists, tempfile.mkstemp, os.fdopen, os.fsync, os.replace, os.rename, os.unlink, os.remove)
+        o_open, o_ioopen, o_exists, o_mkstemp, o_fdopen, o_fsync, o_replace, o_rename, o_unlink, o_remove = self._saved
+        self._orig_open = o_open
+
+        def p_open(file, mode="r", *a, **k):
+            if isinstance(file, int) or not w.mine(file):
+                return o_open(file, mode, *a, **k)
+            if "b" not in mode:
+                raise RuntimeError("harness: text-mode access to the profile cache is not modelled")
+            if "r" in mode and "+" not in mode:
+                w.step("openread", file)
+                with o_open(file, "rb") as f:
+                    data = f.read()
+                w.snap()
+                return io.BytesIO(data)
+            if "w" in mode and "+" not in mode:
+                w.step("opentrunc", file)
+                fd = os.open(os.fspath(file), os.O_WRONLY | os.O_CREAT | os.O_TRUNC, 0o666)
+                w.snap()
+                return WFile(w, fd, os.fspath(file))
+            raise RuntimeError("harness: open mode %r on the profile cache is not modelled" % mode)
+
+        def p_exists(self_, *a, **k):
+            if not w.mine(self_) or os.path.realpath(str(self_)) == w.root:
+                return o_exists(self_, *a, **k)
+            w.step("exists", self_)
+            r = o_exists(self_, *a, **k)
+            w.snap()
+            return r
+
+        def p_mkstemp(*a, **k):
+            d = k.get("dir", a[2] if len(a) > 2 else None)
+            if d is None or not w.mine(d):
+                return o_mkstemp(*a, **k)
+            w.step("mkstemp", d)
+            fd, name = o_mkstemp(*a, **k)
+            w.tmp_fd[fd] = name
+            w.tmp_owner[os.path.basename(name)] = w.tid_of[threading.get_ident()]
+            w.open_fds.add(fd)
+            w.snap()
+            return fd, name
+
+        def p_fdopen(fd, mode="r", *a, **k):
+            if fd in w.tmp_fd:
+                if "b" not in mode or "w" not in mode:
+                    raise RuntimeError("harness: fdopen mode %r is not modelled" % mode)
+                return WFile(w, fd, w.tmp_fd[fd])
+            return o_fdopen(fd, mode, *a, **k)
+
+        def p_fsync(fd):
+            if fd in w.open_fds:
+                w.step("fsync")
+                o_fsync(fd)
+                w.snap()
+                return None
+            return o_fsync(fd)
+
+        def p_replace(src, dst, *a, **k):
+            if w.mine(dst) or w.mine(src):
+                w.step("replace", dst)
+                r = o_replace(src, dst, *a, **k)
+                w.snap()
+                return r
+            return o_replace(src, dst, *a, **k)
+
+        def p_unlink(path, *a, **k):
+            if w.mine(path):
+                w.step("unlink", path)
+                r = o_unlink(path, *a, **k)
+                w.snap()
+                return r
+            return o_unlink(path, *a, **k)
+
+        builtins.open = p_open; io.open = p_open
+        pathlib.Path.exists = p_exists
+        tempfile.mkstemp = p_mkstemp
+        os.fdopen = p_fdopen; os.fsync = p_fsync
+        os.replace = p_replace; os.rename = p_replace
+        os.unlink = p_unlink; os.remove = p_unlink
+        return self
+
+    def __exit__(self, *a):
+        import pathlib, tempfile, io
+        (builtins.open, io.open, pathlib.Path.exists, tempfile.mkstemp, os.fdopen, os.fsync, os.replace, os.rename, os.unlink, os.remove) = self._saved
+        for fd in list(self.open_fds):          # descriptors of killed calls: closed by the OS, nothing flushed
+            try:
+                os.close(fd)
+            except OSError:
+                pass
+        self.open_fds.clear()
+        return False
